@@ -18,7 +18,7 @@ EXTENDS Integers, Sequences, TLC
 
 CONSTANTS Periods,     \* base periods p (ticks), multiples of 8
           Kinds,       \* "sync", "raise", "coro", "cororaise"
-          JF,          \* draws offered: q = p*f/8, subset of 6..9
+          JF,          \* draws offered: q = p*f/8, subset of 6..10
           Ticks, Back, \* clock changes coded 100*x + dm: wall moves by x - Back, loop clock by dm
           MaxWall, MaxMono,
           IdleStop
@@ -123,9 +123,10 @@ AtMostOnePeriod == [][(Rescheduled /\ next <= wall') => next' <= wall' + q']_var
 BackwardsOnePeriod == [][(Rescheduled /\ next > wall') => next' = next + q']_vars
 (* the first run after start() is one drawn period after the start time *)
 FirstRun == [][starts' = starts + 1 => next' = wall' + q']_vars
-(* the drawn period stays within p*(1 - jitter/2) <= q < p*(1 + jitter/2), jitter = 1/2; the base
+(* the drawn period stays within p*(1 - jitter/2) <= q <= p*(1 + jitter/2), jitter = 1/2 (closed at both
+   ends: which end random() = 0 maps to is the implementation's choice, f = 10 is offered to traces); the base
    period itself is never changed by a draw (no drift): q is always derived from cfg.p *)
-QInRange == q = 0 \/ (4 * q >= 3 * cfg.p /\ 4 * q < 5 * cfg.p)
+QInRange == q = 0 \/ (4 * q >= 3 * cfg.p /\ 4 * q <= 5 * cfg.p)
 (* exactly one draw per update *)
 OneDrawPerUpdate == rnd = Len(sched)
 
